@@ -96,7 +96,7 @@ def _odt_convert_post(c):
             ('same-instant', z3.Implies(ok, ldt_seconds64(g) - 60 * sx(o2, 64) == sx(inst, 64)))]
 
 
-contract('ace_time::OffsetDateTime::convertToTimeOffset(ace_time::TimeOffset) const', pure=True, props=['C05'], ensures=_odt_convert_post)
+contract('ace_time::OffsetDateTime::convertToTimeOffset(ace_time::TimeOffset) const', pure=True, props=['C05'], ensures=_odt_convert_post, logic='int')
 
 
 def instant_of(f, off):
